@@ -537,6 +537,29 @@ static size_t get_value_size(carquet_physical_type_t type, int32_t type_length) 
     }
 }
 
+/**
+ * Validate a page header against the bytes that are actually there.
+ *
+ * avail is the number of bytes from the start of the header to the end of the
+ * file. Page sizes and value counts come from the (untrusted) header.
+ */
+static carquet_status_t check_page_extent(
+    const parquet_page_header_t* page_header,
+    size_t header_size,
+    size_t avail,
+    carquet_error_t* error) {
+
+    if (page_header->compressed_page_size < 0 ||
+        page_header->uncompressed_page_size < 0 ||
+        header_size > avail ||
+        (size_t)page_header->compressed_page_size > avail - header_size) {
+        CARQUET_SET_ERROR(error, CARQUET_ERROR_INVALID_PAGE,
+            "Page extends beyond the end of the file");
+        return CARQUET_ERROR_INVALID_PAGE;
+    }
+    return CARQUET_OK;
+}
+
 /* ============================================================================
  * Helper: Load dictionary page (mmap path)
  * ============================================================================
@@ -552,12 +575,17 @@ static carquet_status_t load_dictionary_page_mmap(
 
     /* Parse page header directly from mmap */
     int64_t dict_offset = col_meta->dictionary_page_offset;
+    if (dict_offset < 0 || (uint64_t)dict_offset >= (uint64_t)file_reader->file_size) {
+        CARQUET_SET_ERROR(error, CARQUET_ERROR_INVALID_PAGE, "Dictionary page offset outside the file");
+        return CARQUET_ERROR_INVALID_PAGE;
+    }
+    size_t avail = file_reader->file_size - (size_t)dict_offset;
     const uint8_t* header_ptr = mmap_data + dict_offset;
 
     parquet_page_header_t page_header;
     size_t header_size;
     carquet_status_t status = parquet_parse_page_header(
-        header_ptr, 256, &page_header, &header_size, error);
+        header_ptr, avail < 256 ? avail : 256, &page_header, &header_size, error);
     if (status != CARQUET_OK) {
         return status;
     }
@@ -565,6 +593,11 @@ static carquet_status_t load_dictionary_page_mmap(
     if (page_header.type != CARQUET_PAGE_DICTIONARY) {
         CARQUET_SET_ERROR(error, CARQUET_ERROR_INVALID_PAGE, "Expected dictionary page");
         return CARQUET_ERROR_INVALID_PAGE;
+    }
+
+    status = check_page_extent(&page_header, header_size, avail, error);
+    if (status != CARQUET_OK) {
+        return status;
     }
 
     /* Get pointer to compressed data */
@@ -836,18 +869,32 @@ static carquet_status_t load_next_page_mmap(
 
     /* Parse page header directly from mmap */
     int64_t page_offset = reader->data_start_offset + reader->current_page;
+    if (page_offset < 0 || (uint64_t)page_offset >= (uint64_t)file_reader->file_size) {
+        CARQUET_SET_ERROR(error, CARQUET_ERROR_INVALID_PAGE, "Data page offset outside the file");
+        return CARQUET_ERROR_INVALID_PAGE;
+    }
+    size_t avail = file_reader->file_size - (size_t)page_offset;
     const uint8_t* header_ptr = mmap_data + page_offset;
 
     parquet_page_header_t page_header;
     size_t header_size;
     carquet_status_t status = parquet_parse_page_header(
-        header_ptr, 256, &page_header, &header_size, error);
+        header_ptr, avail < 256 ? avail : 256, &page_header, &header_size, error);
     if (status != CARQUET_OK) {
         return status;
     }
 
     if (page_header.type != CARQUET_PAGE_DATA && page_header.type != CARQUET_PAGE_DATA_V2) {
         CARQUET_SET_ERROR(error, CARQUET_ERROR_INVALID_PAGE, "Expected data page");
+        return CARQUET_ERROR_INVALID_PAGE;
+    }
+
+    status = check_page_extent(&page_header, header_size, avail, error);
+    if (status != CARQUET_OK) {
+        return status;
+    }
+    if (page_header.data_page_header.num_values < 0) {
+        CARQUET_SET_ERROR(error, CARQUET_ERROR_INVALID_PAGE, "Negative value count in page header");
         return CARQUET_ERROR_INVALID_PAGE;
     }
 
@@ -882,6 +929,14 @@ static carquet_status_t load_next_page_mmap(
     if (zero_copy_eligible && !has_levels) {
         /* ====== ZERO-COPY PATH ====== */
 
+        /* The values are handed out straight from the mapping: they must all
+         * lie inside the page */
+        if (value_size == 0 ||
+            (size_t)num_values > (size_t)page_header.compressed_page_size / value_size) {
+            CARQUET_SET_ERROR(error, CARQUET_ERROR_INVALID_PAGE, "Page too small for its value count");
+            return CARQUET_ERROR_INVALID_PAGE;
+        }
+
         /* Free previous owned buffer if any */
         if (reader->decoded_ownership == CARQUET_DATA_OWNED) {
             free(reader->decoded_values);
@@ -898,6 +953,16 @@ static carquet_status_t load_next_page_mmap(
             reader->decoded_def_levels = malloc(sizeof(int16_t) * num_values);
             reader->decoded_rep_levels = malloc(sizeof(int16_t) * num_values);
             reader->decoded_capacity = num_values;
+            if (!reader->decoded_def_levels || !reader->decoded_rep_levels) {
+                free(reader->decoded_def_levels);
+                free(reader->decoded_rep_levels);
+                reader->decoded_def_levels = NULL;
+                reader->decoded_rep_levels = NULL;
+                reader->decoded_values = NULL;
+                reader->decoded_capacity = 0;
+                CARQUET_SET_ERROR(error, CARQUET_ERROR_OUT_OF_MEMORY, "Failed to allocate level buffers");
+                return CARQUET_ERROR_OUT_OF_MEMORY;
+            }
         }
 
         /* Zero-copy only happens when max_def_level == 0, so all levels are 0.
